@@ -118,7 +118,7 @@ READ_SIZES = [1, 7, 100, 1000, 4095, 4096, 10000]     # how much one read() of a
 NONCANON = ['/x/../m%d', '/./m%d', '//m%d', '/%%6d%d', '/x/y/../../m%d', '/../m%d', '/m%d//']
 SIZES = [[40, 0, 1, 5, 300, 4095, 4096, 4097, 9000, 20000, 70000], [40, 0, 1, 5, 300, 4095, 4096, 4097, 9000, 20000, 70000, 300000]]
 SIZE_W = [[4, 3, 2, 3, 4, 1, 2, 1, 3, 2, 1], [4, 3, 2, 3, 4, 1, 2, 1, 3, 2, 2, 1]]
-STATUSES = [201, 202, 203, 206, 299, 300, 302, 400, 402, 404, 410, 413, 500, 503]
+STATUSES = [201, 202, 203, 205, 206, 299, 300, 302, 400, 402, 404, 410, 413, 500, 503]
 NOBODY = [204, 304, 100, 101, 102]
 NOBODY_VALUES = ['str', 'bytes', 'list', 'genret', 'bodygen']     # what a handler that set such a status returns all the same
 SIZED = ('str', 'bytes', 'list', 'genret')                        # results whose size the server knows when it writes the header section
